@@ -198,7 +198,7 @@ pub fn demand_tree(rng: &mut rand::rngs::StdRng, depth: u32, o: &gen::Opts, cmax
             json!({"k": "dslice", "of": parts})
         }
         _ => {
-            let w = ["box", "rc", "ref"][rng.gen_range(0..3)];
+            let w = ["box", "rc", "ref", "min", "min"][rng.gen_range(0..5)];
             json!({"k": "wrap", "w": w, "of": demand_tree(rng, depth - 1, o, cmax)})
         }
     }
